@@ -87,6 +87,9 @@ func (g *histGen) attEntry(k int) Entry {
 	}
 	if ch.Pick(12, 0) == 11 {
 		e.Domain = MkDomain([4]byte{byte(2 + ch.Pick(8, 0)), 0, 0, 0}, g.uniq)
+	} else if ch.Pick(5, 0) == 4 {
+		// the attester domain of another fork (same type, other fork data): the key's history is one and the same
+		e.Domain = MkDomain(DomAttester, uint64(1+ch.Pick(2, 0)))
 	}
 	return e
 }
@@ -132,6 +135,8 @@ func (g *histGen) propEntry(k int) Entry {
 	}
 	if ch.Pick(12, 0) == 11 {
 		e.Domain = MkDomain([4]byte{byte(1 + ch.Pick(8, 0)), 0, 0, 0}, g.uniq)
+	} else if ch.Pick(5, 0) == 4 {
+		e.Domain = MkDomain(DomProposer, uint64(1+ch.Pick(2, 0))) // another fork's proposer domain
 	}
 	return e
 }
